@@ -100,7 +100,15 @@ func runC10(r *Runner, tier string, rng *Rng) {
 		}
 		cfg.Differ = rng.Chance(5)
 		cfg.NSteps = 1 + rng.Intn(2)
+		// some keys (layout key entries and verifier keys) list their hash algorithms in another order
+		keyAlgOrder = map[string][]any{}
+		for _, tk := range pool() {
+			if rng.Chance(35) {
+				keyAlgOrder[tk.ID] = []any{"sha512", "sha256"}
+			}
+		}
 		c := genChainCase(r, rng, cfg)
+		keyAlgOrder = map[string][]any{}
 		c.Op = "verify-hist"
 		nh := 2 + rng.Intn(3)
 		var plist []any
@@ -133,5 +141,5 @@ func runC10(r *Runner, tier string, rng *Rng) {
 		}
 	}
 	flush()
-	r.St.Rule = "generated supply chains (steps mixing key- and certificate-authorized links, layouts whose rules carry substitution markers so that the verdict depends on the parameters) verified 2-4 times on the SAME in-memory layout and key objects with equal or different parameter dictionaries, with and without the caller's intermediate certificates; the product directory is reset before every call; every history is run 4x (12x thorough) and runs must agree among themselves and with the model (a pure function of its inputs); the caller's layout, keys and signatures are serialised before and after every call. Class = (history length, scenario features, verdict vector)."
+	r.St.Rule = "generated supply chains (steps mixing key- and certificate-authorized links, keys whose hash algorithm lists are written in another order, layouts whose rules carry substitution markers so that the verdict depends on the parameters) verified 2-4 times on the SAME in-memory layout and key objects with equal or different parameter dictionaries, with and without the caller's intermediate certificates; the product directory is reset before every call; every history is run 4x (12x thorough) and runs must agree among themselves and with the model (a pure function of its inputs); the caller's layout, keys and signatures are serialised before and after every call. Class = (history length, scenario features, verdict vector)."
 }
